@@ -721,6 +721,23 @@ def fam_release(g, prefix, n_random):
                     add([["subject", "a", "plain"], ["sub", ender(pre(mk(["ref", "a"]))), NOREACT]])
                     g.tag = 0
                     add([["sub", ender(pre(mk(g.cold([])))), NOREACT]])
+    # flat_map over hot inner PIPELINES (each with an operator closure of its own) opened and closed in every order:
+    # an inner pipeline that the controller loses track of keeps its closures alive after the end
+    import itertools
+    idx = {"a": "0", "b": "1", "c": "2"}
+    for (x, y, z) in itertools.permutations(["a", "b", "c"]):
+        pre = [["subject", nm, "plain"] for nm in ("a", "b", "c")] + [["subject", "s", "plain"]]
+        pre += [["def", nm + "2", ["map", "inc", ["ref", nm]]] for nm in ("a", "b", "c")]
+        opening = [["hnext", "s", idx[x]], ["hnext", "s", idx[y]], ["hnext", x, "1"], ["hcomplete", x], ["hnext", "s", idx[z]]]
+        tails = [
+            [["hcomplete", "s"], ["hnext", y, "2"], ["hcomplete", y], ["hnext", z, "3"], ["hcomplete", z]],
+            [["hnext", y, "1"], ["hnext", z, "2"], ["unsub", "0"]],
+            [["hnext", z, "2"], ["herror", "s", "6"]],
+            [["hnext", z, "2"], ["herror", y, "6"]],
+        ]
+        for tl in tails:
+            g.tag = 0
+            add(pre + [["sub", ["flat_map", ["fm_ref", "a2", "b2", "c2"], ["ref", "s"]], NOREACT]] + opening + tl + [["unsub", "0"]])
     for j in range(n_random):
         g.tag = 0
         p = g.pipe_typed(g.r.randint(1, 3), hot=("a",))
